@@ -153,6 +153,9 @@ def can_execute(h, rig, prefix):
                 elif op == "inject":
                     rig.hold[prefix + k] = objs[k]
                     inhold.add(k)
+                elif op == "swap":
+                    objs[k] = Can()
+                    rig.hold[prefix + k] = objs[k]
                 elif op == "close":
                     rig.s.close()
                 elif op == "open":
@@ -211,7 +214,7 @@ def run_can(ctx, root):
     g = ctx.tlc("store", "CanGen", core.cfg_text(constants={"Keys": keys, "Vals": {"v1", "v2"}, "MaxOps": dep},
                                                  constraints=["Dump"]), workers=1, simulate="num=%d" % nsim, depth=dep + 2)
     hs += g.tagged_json("BH")
-    if nex < 500 or len(hs) - nex < nsim:
+    if nex < 500 or len(hs) - nex < nsim // 2:
         raise core.MachineryError("Can history dump too small: %d exhaustive, %d simulated" % (nex, len(hs) - nex))
     rig, nbad = None, 0
     for i, h in enumerate(hs):
